@@ -814,15 +814,12 @@ impl Board {
         self.en_passant_file
     }
 
-    /// The record of earlier positions, as a sorted list of keys (one entry per stored element).
+    /// The record of earlier positions, as a list of keys in no particular order (one entry per stored element).
     pub fn verif_position_keys(&self) -> Vec<ZKey> {
-        let mut keys: Vec<ZKey> = self
-            .position_history
+        self.position_history
             .iter()
             .map(VerifEntryKey::verif_key)
-            .collect();
-        keys.sort_by_key(std::string::ToString::to_string);
-        keys
+            .collect()
     }
 
     pub fn verif_history_len(&self) -> usize {
